@@ -166,7 +166,7 @@ class Source:
             ckind = cn.split(' ', 1)[0]
             hits = []
             for it in level:
-                if ckind == 'impl' and it.kind == 'impl' and norm(it.name) == cn:
+                if ckind == 'impl' and it.kind == 'impl' and (norm(it.name) == cn or norm(it.name).split(' where ')[0].strip() == cn):
                     hits.append(it)
                 elif ckind in ('mod', 'trait') and it.kind == ckind and it.name == cn.split(' ', 1)[1]:
                     hits.append(it)
